@@ -37,6 +37,8 @@ RULE = ("linear-Gaussian problems with dyadic data, m,n<=4 (quick) / <=6 (thorou
 SIG_NOISE = "BayesianProblem.MAP|direct:vector-noise-cov:row-broadcast"
 SIG_PRIOR = "BayesianProblem.MAP|direct:vector-prior-cov:dot-product"
 SIG_OTHER = "BayesianProblem.MAP|direct"
+SIG_GEOM = "BayesianProblem.MAP|direct:matrix-model+nonidentity-geometry"
+NONID = ("mapped_lin", "mapped_sq", "range_mapped_lin", "kl", "step_mat")
 SIG_SAMPLE = "BayesianProblem._sampleMapCholesky"
 SIG_ROUTE = "BayesianProblem._check_posterior"
 SIG_SETUP = "BayesianProblem._solve_max_point"
@@ -45,7 +47,8 @@ SIG_NONSMOOTH = "BayesianProblem._solve_max_point|nonsmooth-prior:bfgs-finite-di
 
 PARAMS = ["cov", "prec", "sqrtcov", "sqrtprec"]
 KINDS = ["scalar", "vector", "matrix", "sparse"]
-DCLS = ["Gaussian", "GMRF", "LMRF", "CMRF", "Laplace", "Cauchy", "RegularizedGaussian", "Other"]
+DCLS = ["Gaussian", "GMRF", "LMRF", "CMRF", "Laplace", "Cauchy", "RegularizedGaussian", "Other",
+        "RegularizedGMRF", "Beta", "InverseGamma", "Lognormal"]
 
 
 # ---------------------------------------------------------------------------------------------------------
@@ -120,23 +123,32 @@ def posterior_exact(A, b, x0, Ce, Cx):
     return f_mv(C, rhs), C, H
 
 
-def close_v(a, e, tol=1e-7):
+def close_v(a, e, tol=1e-7, rel=False):
+    if rel:      # magnitude sweep: relative to the largest component of the exact value
+        s = max([abs(float(y)) for y in e] + [0.0])
+        return len(a) == len(e) and all(abs(float(x) - float(y)) <= tol * s for x, y in zip(a, e))
     return len(a) == len(e) and all(abs(float(x) - float(y)) <= tol * (1 + abs(float(y))) for x, y in zip(a, e))
 
 
 # ---------------------------------------------------------------------------------------------------------
 # building the problem of a meta dict on the implementation
 # ---------------------------------------------------------------------------------------------------------
+STYLES = ["ndarray", "list", "0d", "1x1", "npfloat", "matrix", "fortran", "csc"]
+
+
 def np_cov_value(g):
+    """the Python object handed to Gaussian(...): every declaration style of the same scalar / vector / matrix"""
     import scipy.sparse as sps
-    k, v = g["kind"], g["val"]
+    k, v, st = g["kind"], g["val"], g.get("style", "ndarray")
     if k == "scalar":
-        return float(v)
+        return {"0d": np.array(float(v)), "1x1": np.array([[float(v)]]), "npfloat": np.float64(v), "list": [float(v)]}.get(st, float(v))
     if k == "vector":
-        return np.array(v, dtype=float)
+        return [float(a) for a in v] if st == "list" else np.array(v, dtype=float)
     if k == "matrix":
-        return np.array(v, dtype=float)
-    return sps.csr_matrix(np.array(v, dtype=float))
+        M = np.array(v, dtype=float)
+        return {"list": M.tolist(), "matrix": np.matrix(M), "fortran": np.asfortranarray(M)}.get(st, M)
+    M = np.array(v, dtype=float)
+    return sps.csc_matrix(M) if st == "csc" else sps.csr_matrix(M)
 
 
 def build_gaussian(cuqi, mean, g, geometry=None):
@@ -168,6 +180,22 @@ def build_problem(cuqi, meta):
         dg = step_geometry(cuqi, n, meta["reps"])
         P = np.column_stack([np.asarray(dg.par2fun(e)) for e in np.eye(n)])
         A_eff = A @ P
+    elif geom in NONID:
+        # MATRIX model + non-identity geometry: get_matrix() hands MAP the stored function-space matrix (C07 finding #19);
+        # the Coq model gets that stored matrix (faithful), the oracle the true parameter-to-parameter map
+        n = meta["n"]
+        c = float(meta.get("c", 2))
+        G = cuqi.geometry
+        if geom == "mapped_lin":
+            dg = G.MappedGeometry(G.Continuous1D(n), map=lambda x, c=c: c * x, imap=lambda x, c=c: x / c)
+        elif geom == "mapped_sq":
+            dg = G.MappedGeometry(G.Continuous1D(n), map=lambda x: x ** 2 + x, imap=None)
+        elif geom == "range_mapped_lin":
+            rg = G.MappedGeometry(G.Continuous1D(m), map=lambda x, c=c: c * x, imap=lambda x, c=c: x / c)
+        elif geom == "kl":
+            dg = G.KLExpansion(np.linspace(0, 1, n))
+        elif geom == "step_mat":
+            dg = step_geometry(cuqi, n, meta["reps"])
     else:
         n = A.shape[1]
     if form == "dense":
@@ -178,6 +206,11 @@ def build_problem(cuqi, meta):
         model = cuqi.model.LinearModel(lambda x: A @ x, lambda y: A.T @ y,
                                        range_geometry=rg if rg is not None else m,
                                        domain_geometry=dg if dg is not None else n)
+    elif form == "func_buf":     # callables that write into persistent buffers and return them (aliasing between calls)
+        fb, ab = np.zeros(m), np.zeros(A.shape[1])
+        model = cuqi.model.LinearModel(lambda x: np.matmul(A, x, out=fb), lambda y: np.matmul(A.T, y, out=ab),
+                                       range_geometry=rg if rg is not None else m,
+                                       domain_geometry=dg if dg is not None else n)
     elif form == "general":      # not a LinearModel: the closed-form branch must not be taken
         model = cuqi.model.Model(lambda x: A @ x, m, n, gradient=lambda direction, wrt: A.T @ direction)
     else:
@@ -186,14 +219,34 @@ def build_problem(cuqi, meta):
     if mean["kind"] == "scalar":
         x = build_gaussian(cuqi, float(mean["val"]), meta["cx"], geometry=dg if dg is not None else n)
     else:
-        x = build_gaussian(cuqi, np.array(mean["val"], dtype=float), meta["cx"], geometry=dg)
+        mv = np.array(mean["val"], dtype=float)
+        mst = meta.get("mean_style", "ndarray")
+        if mst == "list":
+            mv = mv.tolist()
+        elif mst == "cuqiarray":
+            mv = cuqi.array.CUQIarray(mv, geometry=dg if dg is not None else cuqi.geometry._DefaultGeometry1D(len(mv)))
+        x = build_gaussian(cuqi, mv, meta["cx"], geometry=dg)
     if form == "general":
         y = build_gaussian(cuqi, model(x), meta["ce"])
     else:
         y = build_gaussian(cuqi, model @ x, meta["ce"])
     x.name, y.name = "x", "y"      # names are otherwise inferred from the caller's stack
-    BP = cuqi.problem.BayesianProblem(y, x).set_data(y=np.array(meta["b"], dtype=float))
+    bv = np.array(meta["b"], dtype=float)
+    if meta.get("data_style") == "list":
+        bv = bv.tolist()
+    elif meta.get("data_style") == "cuqiarray":
+        bv = cuqi.array.CUQIarray(bv, geometry=model.range_geometry)
+    if meta.get("data_style") == "ctor":
+        BP = cuqi.problem.BayesianProblem(y, x, y=bv)           # data handed to the constructor instead of set_data
+    else:
+        BP = cuqi.problem.BayesianProblem(y, x).set_data(y=bv)
     computed = {}
+    if geom in NONID:
+        cols = [np.asarray(model.forward(e), dtype=float) for e in np.eye(n)]
+        T = np.column_stack(cols)
+        probe = np.arange(1, n + 1) / 2.0
+        linear = np.allclose(np.asarray(model.forward(probe)), T @ probe, rtol=1e-12, atol=1e-12) and np.allclose(np.asarray(model.forward(np.zeros(n))), 0)
+        computed["A_true"] = T if linear else None
     for key, dist in (("ce", BP.likelihood.distribution), ("cx", BP.prior)):
         if meta[key].get("compute_cov"):
             computed[key] = np.array(dist.compute_cov(), dtype=float)
@@ -259,6 +312,11 @@ WITNESS_PRIOR = {"op": "map", "A": [[1, 2], [0, 1]], "b": [1, -1], "mean": {"kin
                  "cx": {"param": "cov", "kind": "vector", "val": [1, 2]}, "model": "dense", "geom": "default"}
 
 
+WITNESS_GEOM = {"op": "map", "A": [[1, 2, 0], [0, 1, 1]], "b": [1, -1], "n": 3, "c": 2, "mean": {"kind": "vec", "val": [0, 0, 0]},
+                "ce": {"param": "cov", "kind": "scalar", "val": 0.5}, "cx": {"param": "cov", "kind": "scalar", "val": 2},
+                "model": "dense", "geom": "mapped_lin"}
+
+
 def run_map(cuqi, meta):
     """-> (obs, A_eff, m, n, computed, extras)"""
     BP, A_eff, m, n, computed = build_problem(cuqi, meta)
@@ -268,6 +326,43 @@ def run_map(cuqi, meta):
         obs = [float(v) for v in np.asarray(r).ravel()]
         extras["wrap_ok"] = bool(isinstance(r, cuqi.array.CUQIarray) and r.geometry is BP.posterior.geometry and r.is_par
                                  and r.info == {"solver": "direct"} and np.asarray(r).shape == (n,))
+        if meta.get("history"):
+            # keep-alive: the first estimate is kept, the problem is used again (direct sampling, MAP, ML objective), then
+            # everything handed in or out earlier is re-read bit for bit
+            first = np.array(r, dtype=float).copy()
+            snap = lambda: [np.array(getattr(BP.prior, "mean")).copy(), np.array(BP.data).copy(),
+                            np.array(BP.model.get_matrix().todense() if hasattr(BP.model.get_matrix(), "todense") else BP.model.get_matrix()).copy()]
+            before = snap()
+            try:
+                with ScriptedRandom(seed=3):
+                    quiet(BP.sample_posterior, 2)
+            except Exception:
+                pass
+            try:
+                BP.likelihood.logd(first)
+            except Exception:
+                pass
+            r2 = quiet(BP.MAP)
+            after = snap()
+            extras["wrap_ok"] = bool(extras["wrap_ok"] and np.array_equal(np.asarray(r), first) and np.array_equal(np.asarray(r2), first)
+                                     and all(np.array_equal(a, c) for a, c in zip(before, after)))
+            # the same problem object with its prior replaced: the estimate must be the one of the NEW problem
+            if meta["mean"]["kind"] == "vec" and meta.get("geom", "default") not in NONID and meta["cx"]["param"] == "cov":
+                new_mean = [float(v) + 1.0 + i for i, v in enumerate(meta["mean"]["val"])]
+                orig_prior = BP.prior
+                newp = build_gaussian(cuqi, np.array(new_mean), meta["cx"], geometry=BP.prior.geometry)
+                newp.name = "x"
+                BP.prior = newp
+                try:
+                    r3 = quiet(BP.MAP)
+                finally:
+                    BP.prior = orig_prior
+                exp3, _, _ = posterior_exact([[F(v) for v in row] for row in A_eff.tolist()], [F(v) for v in meta["b"]], [F(v) for v in new_mean],
+                                             intended_cov(meta["ce"], m), intended_cov(meta["cx"], n))
+                if not close_v([float(v) for v in np.asarray(r3)], exp3):
+                    extras["wrap_ok"] = False
+                    extras["hist"] = "after replacing the prior of the same problem object MAP() returned %s, the posterior mean is %s" % (
+                        np.asarray(r3), [float(v) for v in exp3])
     except Exception as e:
         obs = err_kind(e)
         extras["wrap_ok"] = True
@@ -275,7 +370,7 @@ def run_map(cuqi, meta):
     return obs, A_eff, m, n, computed, extras, BP
 
 
-def map_oracle(cuqi, meta, obs, A_eff, m, n, BP):
+def map_oracle(cuqi, meta, obs, A_eff, m, n, BP, computed=None):
     """the property on the implementation: a returned point is the posterior mean, a stationary point and no nearby
     point has larger posterior density; a refusal is not a failure"""
     if isinstance(obs, str):
@@ -283,11 +378,18 @@ def map_oracle(cuqi, meta, obs, A_eff, m, n, BP):
             return "MAP raised an unexpected exception kind: %s" % obs
         return None
     Ce, Cx = intended_cov(meta["ce"], m), intended_cov(meta["cx"], n)
-    A = [[F(v) for v in row] for row in A_eff.tolist()]
+    A_true = A_eff
+    if computed is not None and "A_true" in computed:
+        A_true = computed["A_true"]
+        if A_true is None:      # forward map not linear in the parameters: judge by the posterior's own logd
+            return refine_fail(BP.posterior, np.array(obs), "MAP (closed form, parameter map not linear)")
+    A = [[F(v) for v in row] for row in A_true.tolist()]
     mean, C, H = posterior_exact(A, [F(v) for v in meta["b"]], full_x0(meta, n), Ce, Cx)
-    if not close_v(obs, mean):
-        return "MAP returned %s but the posterior mean is %s" % ([round(v, 9) for v in obs], [round(float(v), 9) for v in mean])
+    if not close_v(obs, mean, rel=bool(meta.get("scale"))):
+        return "MAP returned %s but the posterior mean is %s" % ([float("%.9g" % v) for v in obs], [float("%.9g" % float(v)) for v in mean])
     x = np.array(obs)
+    if meta.get("scale"):
+        return None
     try:
         lp = float(BP.posterior.logd(x))
         rs = np.random.RandomState(7)
@@ -313,6 +415,12 @@ def known_witnesses(ctx):
     bad_noise, bad_prior, o1, o2 = probe_fixed(cuqi)
     out = {SIG_NOISE: (bool(bad_noise), bad_noise or "witness returns the posterior mean"),
            SIG_PRIOR: (bool(bad_prior), bad_prior or "witness returns the posterior mean (or is refused)")}
+    try:
+        obs, A_eff, m, n, computed, extras, BP = run_map(cuqi, WITNESS_GEOM)
+        bad = map_oracle(cuqi, WITNESS_GEOM, obs, A_eff, m, n, BP, computed)
+        out[SIG_GEOM] = (bool(bad), bad or "witness returns the posterior mean (or is refused)")
+    except Exception as e:
+        out[SIG_GEOM] = (False, "witness call now fails: %r" % (e,))
     # non-smooth prior: the maximiser of the witness posterior is (0, 0); MAP() returns normally with another point
     try:
         BP = build_classes(cuqi, WITNESS_NONSMOOTH)
@@ -410,6 +518,31 @@ def lattice_map(ctx):
             for ke, kx in [("scalar", "scalar"), ("vector", "diagm"), ("diagm", "vector")]:
                 cells.append(dict(m=2, n=3, ke=ke, kx=kx, pe=pe, px=px, model="dense", geom="default", mean="vec",
                                   cce=cc and (pe != "cov" or ke == "vector"), ccx=cc and (px != "cov" or kx == "vector")))
+    # 7. declaration styles of the same covariance / mean / data (style != structure)
+    for ke, kx, se, sx in [("scalar", "scalar", "1x1", "npfloat"), ("scalar", "scalar", "npfloat", "list"), ("vector", "vector", "list", "ndarray"),
+                           ("vector", "matrix", "ndarray", "list"), ("matrix", "matrix", "list", "matrix"), ("matrix", "matrix", "fortran", "list"),
+                           ("diagm", "matrix", "matrix", "fortran"), ("sparse", "sparse", "csc", "csr")]:
+        for (m, n) in [(2, 3), (3, 2)]:
+            for mst, dst in [("list", "list"), ("cuqiarray", "cuqiarray"), ("ndarray", "ctor")]:
+                cells.append(dict(m=m, n=n, ke=ke, kx=kx, pe="cov", px="cov", model="dense", geom="default", mean="vec",
+                                  se=se, sx=sx, mean_style=mst, data_style=dst, history=True))
+    # 8. callables writing into persistent buffers; repeated use of one problem (history)
+    for ke, kx in [("matrix", "matrix"), ("scalar", "vector"), ("vector", "scalar")]:
+        for (m, n) in [(2, 3), (3, 3), (3, 2)]:
+            for model in ("func_buf", "dense", "func", "sparse"):
+                cells.append(dict(m=m, n=n, ke=ke, kx=kx, pe="cov", px="cov", model=model, geom="default", mean="vec", history=True))
+    # 9. magnitude sweep (dyadic factors; compared relative to the largest component): data scale t (b, x0 by t, covariances
+    #    by t^2) and model scale t (A by t, prior covariance by t^-2, prior mean by 1/t)
+    for k in (-30, -8, 8, 14):
+        for kind in ("data", "model"):
+            for ke, kx in [("matrix", "matrix"), ("scalar", "scalar"), ("vector", "vector"), ("diagm", "matrix")]:
+                for (m, n) in [(2, 3), (3, 2)]:
+                    cells.append(dict(m=m, n=n, ke=ke, kx=kx, pe="cov", px="cov", model="dense", geom="default", mean="vec", scale=(kind, k)))
+    # 6. matrix model + non-identity geometry (finding ..|matrix-model+nonidentity-geometry; step_mat is a refusal)
+    for geom in NONID:
+        for (m, n) in [(2, 3), (3, 3), (3, 2)]:
+            for ke, kx in [("scalar", "scalar"), ("matrix", "matrix")]:
+                cells.append(dict(m=m, n=n, ke=ke, kx=kx, pe="cov", px="cov", model="dense", geom=geom, mean="vec"))
     # 5. scalar prior mean (length-1 array): n = 1 works, n > 1 is refused
     for (m, n) in [(2, 1), (1, 1), (2, 3), (3, 3)]:
         for ke, kx in [("scalar", "scalar"), ("matrix", "matrix"), ("vector", "scalar")]:
@@ -421,10 +554,14 @@ def instantiate(rng, c, op="map"):
     m, n = c["m"], c["n"]
     for attempt in range(200):
         meta = {"op": op, "model": c["model"], "geom": c["geom"]}
-        if c["geom"] == "step":
+        if c["geom"] in ("step", "step_mat"):
             reps = rng.choice([2, 3])
             meta["n"], meta["reps"] = n, reps
             meta["A"] = gen_A(rng, m, n * reps)
+        elif c["geom"] in NONID:
+            meta["n"] = n
+            meta["c"] = rng.choice([2, 0.5, 4])
+            meta["A"] = gen_A(rng, m, n)
         else:
             meta["A"] = gen_A(rng, m, n)
         meta["b"] = [dy(rng) for _ in range(m)]
@@ -456,9 +593,35 @@ def instantiate(rng, c, op="map"):
             A_eff = A @ P
             if np.linalg.matrix_rank(A_eff) < min(m, n):
                 continue
+        elif c["geom"] == "step_mat":
+            return meta                      # shape mismatch: the call is refused before any system is formed
         else:
             A_eff = A
+        if c["geom"] in NONID and c["mean"] == "vec":
+            # the prior mean must not reproduce the data (else the wrong and the right estimate coincide at x0)
+            meta["mean"] = {"kind": "vec", "val": [dy(rng) for _ in range(n)]}
         if well_conditioned(meta, A_eff, m, n):
+            for key in ("mean_style", "data_style", "history"):
+                if c.get(key):
+                    meta[key] = c[key]
+            if c.get("se"):
+                meta["ce"]["style"] = c["se"]
+            if c.get("sx"):
+                meta["cx"]["style"] = c["sx"]
+            if c.get("scale"):
+                kind, k = c["scale"]
+                t = 2.0 ** k
+                sc = lambda g, f: g.update(val=(g["val"] * f if g["kind"] == "scalar" else (np.array(g["val"]) * f).tolist()))
+                if kind == "data":
+                    meta["b"] = [v * t for v in meta["b"]]
+                    meta["mean"]["val"] = [v * t for v in meta["mean"]["val"]]
+                    sc(meta["ce"], t * t)
+                    sc(meta["cx"], t * t)
+                else:
+                    meta["A"] = (np.array(meta["A"]) * t).tolist()
+                    meta["mean"]["val"] = [v / t for v in meta["mean"]["val"]]
+                    sc(meta["cx"], 1 / (t * t))
+                meta["scale"] = [kind, k]
             return meta
     raise RuntimeError("could not instantiate cell %r" % (c,))
 
@@ -466,7 +629,14 @@ def instantiate(rng, c, op="map"):
 def cell_name(c, op):
     par = "" if (c["pe"], c["px"]) == ("cov", "cov") else "/param:%s,%s%s" % (c["pe"], c["px"], "+compute_cov" if (c.get("cce") or c.get("ccx")) else "")
     shape = "m<n" if c["m"] < c["n"] else ("m=n" if c["m"] == c["n"] else "m>n")
-    return "%s/%s-%s/Ce:%s,Cx:%s%s/mean:%s/%s" % (op, c["model"], c["geom"], c["ke"], c["kx"], par, c["mean"], shape)
+    extra = ""
+    if c.get("se"):
+        extra += "/style:%s,%s,%s,%s" % (c["se"], c["sx"], c["mean_style"], c["data_style"])
+    if c.get("scale"):
+        extra += "/scale:%s*2^%d" % c["scale"]
+    if c.get("history"):
+        extra += "/history"
+    return "%s/%s-%s/Ce:%s,Cx:%s%s/mean:%s/%s%s" % (op, c["model"], c["geom"], c["ke"], c["kx"], par, c["mean"], shape, extra)
 
 
 # ---------------------------------------------------------------------------------------------------------
@@ -482,17 +652,50 @@ def classify_map(meta, m, n):
     return SIG_OTHER
 
 
+def predict_unrepaired(meta, A_eff, m, n):
+    """what the code WITHOUT fixes/C15_vector_cov.diff returns for a 1-d covariance (numpy semantics written out)"""
+    try:
+        A = np.array(A_eff, dtype=float)
+        b = np.array(meta["b"], dtype=float)
+        x0 = np.array([float(v) for v in full_x0(meta, n)])
+        def val(g, dim):
+            if g["kind"] == "vector" and len(g["val"]) > 1:
+                return np.array(g["val"], dtype=float)
+            return np.array([[float(v) for v in r] for r in intended_cov(g, dim)])
+        Ce, Cx = val(meta["ce"], m), val(meta["cx"], n)
+        sysm = A @ Cx @ A.T + Ce
+        return (x0 + Cx @ (A.T @ np.linalg.solve(sysm, b - A @ x0))).tolist()
+    except Exception:
+        return None
+
+
 def case_map(cuqi, meta, fixed, cell):
     obs, A_eff, m, n, computed, extras, BP = run_map(cuqi, meta)
-    fail = map_oracle(cuqi, meta, obs, A_eff, m, n, BP)
+    fail = map_oracle(cuqi, meta, obs, A_eff, m, n, BP, computed)
     if fail is None and not extras["wrap_ok"]:
-        fail = "MAP result is not a parameter CUQIarray on the posterior geometry with info {'solver': 'direct'}"
-    expr = "check_map %s %s %s %s %s %s %s %s %s && %s" % (
+        fail = extras.get("hist") or ("MAP result is not a parameter CUQIarray on the posterior geometry with info {'solver': 'direct'}, or a repeated "
+                                      "call / intermediate use of the problem changed an estimate, the prior mean, the data or the matrix")
+    sig = classify_map(meta, m, n)
+    if fail and sig in (SIG_NOISE, SIG_PRIOR):
+        # a repaired signature is only named when the deviation is exactly the one that defect produces
+        pred = predict_unrepaired(meta, A_eff, m, n)
+        if isinstance(obs, str) or pred is None or np.ndim(pred) != 1 or not close_v(obs, pred):
+            sig = SIG_OTHER
+    if fail and meta.get("geom") in NONID:
+        # the defect predicts exactly: the posterior mean of the problem with the STORED matrix in the place of the true map
+        try:
+            pred, _, _ = posterior_exact([[F(v) for v in row] for row in A_eff.tolist()], [F(v) for v in meta["b"]], full_x0(meta, n),
+                                         intended_cov(meta["ce"], m), intended_cov(meta["cx"], n))
+            sig = SIG_GEOM if (not isinstance(obs, str) and close_v(obs, pred)) else SIG_OTHER
+        except Exception:
+            sig = SIG_OTHER
+    rel = bool(meta.get("scale")) and not isinstance(obs, str)
+    expr = "%s %s %s %s %s %s %s %s %s %s && %s" % (
+        "check_map_rel" if rel else "check_map",
         cbool(fixed), cnat(m), cnat(n), cqmat(A_eff.tolist()), cqvec(meta["b"]), cqvec(model_x0(meta, n)),
-        c_gdesc(meta["ce"], m, computed.get("ce")), c_gdesc(meta["cx"], n, computed.get("cx")), c_obs(obs),
-        cbool(extras["wrap_ok"]))
-    return Case(expr=expr, meta=meta, cell=cell, kind="EXACT", impl_fail=fail,
-                signature=classify_map(meta, m, n) if fail else "")
+        c_gdesc(meta["ce"], m, computed.get("ce")), c_gdesc(meta["cx"], n, computed.get("cx")),
+        cqvec(obs) if rel else c_obs(obs), cbool(extras["wrap_ok"]))
+    return Case(expr=expr, meta=meta, cell=cell, kind="EXACT", impl_fail=fail, signature=sig if fail else "")
 
 
 # ---------------------------------------------------------------------------------------------------------
@@ -537,6 +740,11 @@ def sample_oracle(meta, out):
     mu = X[:, 0]
     L = X[:, 1:n + 1] - mu[:, None]
     Ce, Cx = intended_cov(meta["ce"], m), intended_cov(meta["cx"], n)
+    if "A_true" in out["computed"]:
+        A_eff = out["computed"]["A_true"]
+        if A_eff is None:
+            return refine_fail(out["BP"].posterior, mu, "offset of the direct draws (parameter map not linear)") or \
+                "direct Gaussian sampling of a posterior that is not Gaussian (forward map not linear in the parameters)"
     A = [[F(v) for v in row] for row in A_eff.tolist()]
     mean, C, H = posterior_exact(A, [F(v) for v in meta["b"]], full_x0(meta, n), Ce, Cx)
     if not close_v(mu, mean):
@@ -568,7 +776,8 @@ def case_sample(cuqi, meta, fixed, cell):
         cbool(fixed), cnat(m), cnat(n), cqmat(out["A_eff"].tolist()), cqvec(meta["b"]), cqvec(model_x0(meta, n)),
         c_gdesc(meta["ce"], m, out["computed"].get("ce")), c_gdesc(meta["cx"], n, out["computed"].get("cx")),
         err, cqvec(mu_l), cqmat(L_l), cqvec(meta["z"]), cqvec(s_l), cbool(out["flags"]))
-    return Case(expr=expr, meta=meta, cell=cell, kind="EXACT", impl_fail=fail, signature=SIG_SAMPLE if fail else "")
+    return Case(expr=expr, meta=meta, cell=cell, kind="EXACT", impl_fail=fail,
+                signature=(SIG_GEOM if meta.get("geom") in NONID else SIG_SAMPLE) if fail else "")
 
 
 # ---------------------------------------------------------------------------------------------------------
@@ -600,6 +809,15 @@ def build_classes(cuqi, meta):
         x = D.Cauchy(np.zeros(n), 0.5)
     elif pk == "RegularizedGaussian":
         x = cuqi.implicitprior.RegularizedGaussian(np.zeros(n), 2.0, constraint="nonnegativity")
+    elif pk == "RegularizedGMRF":
+        x = (cuqi.implicitprior.NonnegativeGMRF(np.zeros(n), 2.0) if meta.get("subclass") else
+             cuqi.implicitprior.RegularizedGMRF(np.zeros(n), 2.0, constraint="nonnegativity"))
+    elif pk == "Beta":
+        x = D.Beta(2 * np.ones(n), 3 * np.ones(n))
+    elif pk == "InverseGamma":
+        x = D.InverseGamma(3 * np.ones(n), np.zeros(n), np.ones(n))
+    elif pk == "Lognormal":
+        x = D.Lognormal(np.zeros(n), 1.0)
     else:
         x = D.SmoothedLaplace(np.zeros(n), 0.5, 0.01) if hasattr(D, "SmoothedLaplace") else D.Lognormal(np.zeros(n), 1.0)
     arg = (model @ x) if meta["linear"] else model(x)
@@ -611,7 +829,49 @@ def build_classes(cuqi, meta):
     else:
         y = D.Cauchy(arg, 0.5)
     x.name, y.name = "x", "y"
+    if meta.get("joint"):       # data not set: the target stays a JointDistribution
+        return cuqi.problem.BayesianProblem(y, x)
     return cuqi.problem.BayesianProblem(y, x).set_data(y=np.array(meta["b"], dtype=float))
+
+
+def case_cascade(cuqi, meta):
+    """which _sample* method sample_posterior dispatches to, over the whole lattice of prior x likelihood x model classes"""
+    BPcls = cuqi.problem.BayesianProblem
+    old = cuqi.config.MAX_DIM_INV
+    cuqi.config.MAX_DIM_INV = meta["max_dim_inv"]
+    try:
+        BP = build_classes(cuqi, meta)
+        joint = bool(meta.get("joint"))
+        has_grad = False if joint else observe_has_grad(BP)
+        sptm = False if joint else hasattr(BP.prior, "sqrtprecTimesMean")
+        lsq = False if joint else hasattr(BP.likelihood.distribution, "sqrtprec")
+        taken = []
+        patches = {nm: (lambda self, *a, _nm=nm, **k: taken.append(_nm)) for nm in SAMPLERS}
+        with _Patch(BPcls, **patches):
+            try:
+                quiet(BP.sample_posterior, 3, experimental=bool(meta.get("experimental")))
+            except NotImplementedError:
+                taken.append("NotImplementedError")
+    finally:
+        cuqi.config.MAX_DIM_INV = old
+    order = ["_sampleGibbs", "_sampleMapCholesky", "_sampleLinearRTO", "_sampleUGLA", "_sampleNUTS", "_samplepCN",
+             "_sampleRegularizedLinearRTO", "NotImplementedError"]
+    idx = order.index(taken[0]) if len(taken) == 1 and taken[0] in order else 99
+    lin_gauss = (not joint) and meta["prior"] == "Gaussian" and meta["lik"] == "Gaussian" and meta["linear"] \
+        and meta["n"] <= meta["max_dim_inv"] and meta["m"] <= meta["max_dim_inv"]
+    fail = None
+    if (idx == 1) != lin_gauss:
+        fail = "sample_posterior took %s for prior=%s lik=%s linear=%s dims (%d,%d) MAX_DIM_INV=%d: the direct Gaussian route is exact only for small linear-Gaussian problems" % (
+            taken, meta["prior"], meta["lik"], meta["linear"], meta["m"], meta["n"], meta["max_dim_inv"])
+    elif idx == 99:
+        fail = "sample_posterior dispatched to %s" % (taken,)
+    P = "(mk_pinfo %s %s %s %s %s %s)" % (cnat(DCLS.index(meta["prior"]) if meta["prior"] in DCLS else 7),
+                                          cnat(DCLS.index(meta["lik"]) if meta["lik"] in DCLS else 7), cbool(meta["linear"]), cnat(meta["m"]), cnat(meta["n"]), cbool(has_grad))
+    expr = "check_cascade %s %s %s %s %s %s" % (cbool(joint), P, cbool(sptm), cbool(lsq), cnat(meta["max_dim_inv"]), cnat(idx))
+    return Case(expr=expr, meta=meta, cell="cascade/%s%s,%s,%s/%s%s" % (meta["prior"], "(sub)" if meta.get("subclass") else "", meta["lik"],
+                                                                      "linear" if meta["linear"] else ("general" if meta.get("model_grad", True) else "general-nograd"),
+                                                                      "joint" if joint else meta["dimcls"], "/exp" if meta.get("experimental") else ""),
+                kind="DECISION", impl_fail=fail, signature=SIG_ROUTE if fail else "")
 
 
 def observe_has_grad(BP):
@@ -859,6 +1119,8 @@ def dispatch(cuqi, meta, fixed, cell=""):
         return case_sample(cuqi, meta, fixed, cell)
     if op == "route":
         return case_route(cuqi, meta)
+    if op == "cascade":
+        return case_cascade(cuqi, meta)
     if op == "setup":
         return case_setup(cuqi, meta)
     if op == "opt":
@@ -875,11 +1137,38 @@ def gen_route_metas(ctx):
     for prior in priors:
         for lik in ["Gaussian", "Laplace"]:
             for linear in (True, False):
-                for dimcls, (m, n, md) in {"below": (2, 3, 2000), "equal": (3, 3, 3), "n-above": (2, 3, 2), "m-above": (3, 2, 2)}.items():
-                    if not ctx.thorough and prior not in ("Gaussian", "GMRF") and dimcls in ("equal", "m-above"):
+                for dimcls, (m, n, md) in DIMCLS.items():
+                    if prior not in ("Gaussian", "GMRF") and dimcls not in ("below", "equal", "n-above", "m-above"):
                         continue
                     out.append({"op": "route", "prior": prior, "lik": lik, "linear": linear, "m": m, "n": n, "max_dim_inv": md,
                                 "dimcls": dimcls, "A": gen_A(rng, m, n), "b": [dy(rng) for _ in range(m)]})
+    return out
+
+
+DIMCLS = {"below": (2, 3, 2000), "equal": (3, 3, 3), "n-above": (2, 3, 2), "m-above": (3, 2, 2), "n-equal-m-below": (2, 3, 3),
+          "m-equal-n-below": (3, 2, 3), "both-above": (3, 4, 2), "n-one-above": (3, 4, 3)}
+
+
+def gen_cascade_metas(ctx):
+    rng = ctx.rng
+    out = []
+    priors = ["Gaussian", "GMRF", "LMRF", "CMRF", "Laplace", "Cauchy", "RegularizedGaussian", "RegularizedGMRF", "Beta",
+              "InverseGamma", "Lognormal", "Other"]
+    for prior in priors:
+        for lik in ["Gaussian", "Laplace"]:      # a Cauchy likelihood makes the gradient probe raise TypeError (crash, no choice made)
+            for linear, mg in [(True, True), (False, True), (False, False)]:
+                for dimcls in (["below", "n-above"] if prior != "Gaussian" else list(DIMCLS)):
+                    m, n, md = DIMCLS[dimcls]
+                    meta = {"op": "cascade", "prior": prior, "lik": lik, "linear": linear, "model_grad": mg, "m": m, "n": n,
+                            "max_dim_inv": md, "dimcls": dimcls, "A": gen_A(rng, m, n), "b": [dy(rng) for _ in range(m)]}
+                    if prior == "RegularizedGMRF" and lik == "Gaussian":
+                        meta["subclass"] = rng.random() < 0.5
+                    if lik == "Gaussian" and rng.random() < 0.3:
+                        meta["experimental"] = True
+                    out.append(meta)
+    for prior in ["Gaussian", "GMRF", "LMRF"]:
+        out.append({"op": "cascade", "joint": True, "prior": prior, "lik": "Gaussian", "linear": True, "m": 2, "n": 3, "max_dim_inv": 2000,
+                    "dimcls": "below", "A": gen_A(rng, 2, 3), "b": [0, 0]})
     return out
 
 
@@ -973,6 +1262,8 @@ def run(ctx):
         cases.append(case_sample(cuqi, meta, fixed, cell_name(c, "sample")))
     for meta in gen_route_metas(ctx):
         cases.append(case_route(cuqi, meta))
+    for meta in gen_cascade_metas(ctx):
+        cases.append(case_cascade(cuqi, meta))
     for meta in gen_setup_metas(ctx):
         cases.append(case_setup(cuqi, meta))
     for meta in gen_opt_metas(ctx):
@@ -1000,8 +1291,12 @@ def classify(meta, detail):
     op = meta.get("op")
     if op == "map":
         A = meta["A"]
+        if meta.get("geom") in NONID:
+            return SIG_GEOM
         return classify_map(meta, len(A), len(A[0]))
-    return {"sample": SIG_SAMPLE, "route": SIG_ROUTE, "setup": SIG_SETUP, "opt": SIG_OPT, "optng": SIG_OPT, "optns": SIG_NONSMOOTH}.get(op, "C15")
+    if op == "sample" and meta.get("geom") in NONID:
+        return SIG_GEOM
+    return {"sample": SIG_SAMPLE, "route": SIG_ROUTE, "cascade": SIG_ROUTE, "setup": SIG_SETUP, "opt": SIG_OPT, "optng": SIG_OPT, "optns": SIG_NONSMOOTH}.get(op, "C15")
 
 
 def search(ctx):
@@ -1024,7 +1319,7 @@ def replay(ctx, meta):
     print(json.dumps(meta, indent=1, default=str)[:6000])
     m = meta.get("meta", meta)
     if "witness" in m:
-        m = WITNESS_NOISE if m["witness"] == SIG_NOISE else WITNESS_PRIOR
+        m = {SIG_NOISE: WITNESS_NOISE, SIG_PRIOR: WITNESS_PRIOR, SIG_GEOM: WITNESS_GEOM}.get(m["witness"], WITNESS_NONSMOOTH)
     bad_noise, _, _, _ = probe_fixed(cuqi)
     fixed = not bad_noise
     c = dispatch(cuqi, m, fixed)
@@ -1033,7 +1328,8 @@ def replay(ctx, meta):
         obs, A_eff, mm, nn, computed, extras, BP = run_map(cuqi, m)
         print("implementation MAP():", obs, extras.get("exc", ""))
         try:
-            mean, C, H = posterior_exact([[F(v) for v in row] for row in A_eff.tolist()], [F(v) for v in m["b"]], full_x0(m, nn),
+            A_true = computed.get("A_true", A_eff)
+            mean, C, H = posterior_exact([[F(v) for v in row] for row in A_true.tolist()], [F(v) for v in m["b"]], full_x0(m, nn),
                                          intended_cov(m["ce"], mm), intended_cov(m["cx"], nn))
             print("posterior mean (exact) :", [float(v) for v in mean])
         except Exception as e:
